@@ -25,7 +25,7 @@ ASSUMPTIONS = ["virtual sleep: the repetition threads are real, their sleeps are
                "the emergency-vehicle application's fixed 1 s interval is varied by setting its public attribute before triggering"]
 REQUIRED_COUNTERS = ["events", "denms", "schedules_compared", "multi_message_schedules", "action_id_pairs_compared", "received_denms_in_ldm_checked",
                      "denms_of_moving_events_judged", "received_denm_streams_checked",
-                     "S.schedules", "S.preempted_schedules", "S.event_schedules_judged"]
+                     "S.schedules", "S.preempted_schedules", "S.event_schedules_judged", "S.schedules_with_an_injected_fault"]
 
 
 class Lockstep:
@@ -400,10 +400,10 @@ def run_reception(spec, res):
 _INS = None
 
 
-def sched_scenario(rng):
-    n = rng.choice((2, 2, 3))
+def sched_scenario(rng, fault=False):
+    n = rng.choice((2, 2, 3)) if not fault else 4
     interval = rng.choice((100, 100, 250))
-    return {"part": "S", "station_id": rng.randrange(1, 1 << 32),
+    return {"part": "S", "station_id": rng.randrange(1, 1 << 32), "fault_ordinals": [0] if fault else [],
             "events": [{"interval_ms": interval, "duration_ms": interval * rng.choice((2, 3)), "lat": round(rng.uniform(-80, 80), 5), "lon": round(rng.uniform(-170, 170), 5)}
                        for _ in range(n)]}
 
@@ -428,13 +428,22 @@ def sched_execute(c, plan, policy, log_from, instr_points):
     sc.on_time = on_time
     dtm.time = types.SimpleNamespace(sleep=S.sched_sleep, time=clock.now)
     dtm.threading = types.SimpleNamespace(Thread=S.SchedThread, Lock=S.Lock, RLock=S.RLock)
-    out = {"reqs": [], "owner": {}}
+    out = {"reqs": [], "owner": {}, "faulted": [], "calls": 0}
     try:
         coder = _CODER[0] if _CODER else _CODER.append(DENMCoder()) or _CODER[0]
 
         class Rec:
             def btp_data_request(self, request):
                 a = sc.by_ident.get(threading.get_ident())
+                k_ = out["calls"]
+                out["calls"] += 1
+                if k_ in c.get("fault_ordinals", ()):
+                    # injected fault: the lower layers refuse this DENM (after a scheduling point, so that other events
+                    # can start while the failing hand-over is under way)
+                    if a is not None:
+                        sc.sync_point(a, "transmit")
+                    out["faulted"].append(a.name if a else "main")
+                    raise RuntimeError("injected fault: lower layers refuse the request")
                 out["reqs"].append((sc.vtime, a.name if a else "main", request))
                 if a is not None:
                     sc.sync_point(a, "transmit")
@@ -481,10 +490,13 @@ def sched_one(c, plan, policy, res, mode, log_from=None, instr_points=True):
     if oc["deadlock"]:
         res.violation("C17:S:deadlock", f"{oc.get('blocked')}", ctx)
         return sc
-    for name, e in oc["exceptions"]:
+    real_exc = [(name, e) for name, e in oc["exceptions"] if "injected fault" not in repr(e)]
+    for name, e in real_exc:
         res.violation(f"C17:S:repetition-thread-raises-{type(e).__name__}", f"{name}: {e!r}", ctx)
-    if oc["exceptions"]:
+    if real_exc:
         return sc
+    if out["faulted"]:
+        res.count("S.schedules_with_an_injected_fault")
     per_actor = {}
     for (t, who, req) in out["reqs"]:
         res.count("S.denms")
@@ -496,6 +508,8 @@ def sched_one(c, plan, policy, res, mode, log_from=None, instr_points=True):
         recs = per_actor.get(who, [])
         want = math.ceil(ev["duration_ms"] / ev["interval_ms"])
         res.count("S.event_schedules_judged")
+        if who in out["faulted"] or (who is None and out["faulted"]):
+            want = len(recs)          # an event whose hand-over was refused is not judged for its count
         if len(recs) != want:
             res.violation(f"C17:number-of-denms-differs[{'more' if len(recs) > want else 'fewer'}][concurrent-events]",
                           f"event {i}: {len(recs)} DENMs handed over by its repetition thread, expected ceil(T/i) = {want}", ctx)
@@ -550,7 +564,7 @@ def shards(tier, seed):
     rng = random.Random(seed * 733 + 17)
     sched = []
     for k in range(2 if tier == "quick" else 6):
-        c = sched_scenario(rng)
+        c = sched_scenario(rng, fault=(k % 2 == 1))      # every other scenario: the first DENM handed over is refused by the lower layers
         for mode, nsh, budget in (("instr", 2, 400 if tier == "quick" else 4000), ("random", 1, 150 if tier == "quick" else 3000)):
             for sh in range(nsh):
                 sched.append({"part": "S", "scenario": c, "mode": mode, "shard": sh, "nshards": nsh, "budget": budget, "seed": seed * 739 + k * 7 + sh})
